@@ -610,7 +610,15 @@ def rule_patternflush(ctx):
         yield ob(R, f, "io.load_patterns:flush#%d" % n, good and guard_ok, "the pattern appended to %s already carries its pending occurrence, and its emptiness is tested after that" % res if good and guard_ok else ("the pattern is appended to %s before its pending occurrence is attached (value %s)" % (res, tm.show(v, 2)) if not good else "the emptiness of the pending pattern is tested before its pending occurrence is attached: a pattern with a single occurrence is dropped"), node=m.node)
 
 
+def rule_extnames(ctx):
+    """loaders report malformed files through their own handlers: the names those handlers and converters rely on exist"""
+    from . import common
+
+    yield from common.rule_extnames(ctx, "C20.EXTNAMES", ("io.py", "util.py", "key.py", "tempo.py"))
+
+
 RULES = [
+    ("C20.EXTNAMES", 20, rule_extnames),
     ("C20.PATTERNFLUSH", 1, rule_patternflush),
     ("C20.VALIDATORTOTAL", 10, rule_validatortotal),
     ("C20.CONVERTERS", 14, rule_converters),
